@@ -235,7 +235,7 @@ class SiteGen:
         if kk < 0.6:
             return f"{coll}.Select(lambda {w}: {self.scalar(w, elem, depth + 1)}).Count()"
         if kk < 0.8:
-            return f"{coll}.First().{r.choice(self.pl.METHODS[elem])}({self.site(elem, 'first-method', depth)})".replace("first-method", "pt") if False else self.call(f"{coll}.First()", elem, r.choice(self.pl.METHODS[elem]), depth)
+            return self.call(f"{coll}{r.choice(['.First()', '.First()', '[0]', '[-1]', '[2 - 1]'])}", elem, r.choice(self.pl.METHODS[elem]), depth)
         return f"{coll}.Select(lambda {w}: {self.scalar(w, elem, depth + 1)}).First()"
 
     def seq(self, v, cls, depth):
